@@ -1,52 +1,80 @@
-"""C19 helper (NOT wired into harness/props/C19.py yet): differential run of the Gallina model
-ModelCopyNode.findall_concrete (copy_node + add_and threaded through the REAL target) against the real
-_builtin_findall_base.  Records len(target) before each findall call (the target only grows during the
-call, so the state before the call is that prefix of the dump taken after it), then emits a Coq file whose
-vm_compute compares the model's final target node list and its outputs with the real ones (structural
-equality: same node list, same output keys, same order).  Programs with annotated disjunctions are skipped
-(atom_info of the AD groups is not reconstructed here).
+"""C19 helper: differential tie of the Gallina model ModelCopyNode.findall_concrete (copy_node + add_and
+threaded through the REAL target, on top of the C09 target builder) with the real _builtin_findall_base.
 
+`capture(src)` = c19_findall.capture plus, per findall/3 call, the length of the target's node list before
+and after the call (`tlen_before`, `tlen_after`) and the target's keep_all / keep_duplicates flags.  The target
+only grows during the call, so its state before the call is that prefix of the dump taken after it.
+`coq_case(c, src)` turns one recorded call into a Coq term of type bool (`chk …`, see HEADER): the model,
+started from the real target as it was before the call, must produce the identical final node list of the
+target and the identical outputs (term lists, keys, order).  Programs with annotated disjunctions are skipped
+(atom_info of the AD groups is not reconstructed).
+
+Used by harness/props/C19.py (run_machinery).  By hand:
   cd /verif && PYTHONPATH=$VERIF_REPO PYTHONDONTWRITEBYTECODE=1 /venv/bin/python gen/c19_copynode_diff.py N SEED OUTDIR
   cd /verif/coq && coqc -Q theories PL OUTDIR/Cases.v      # prints (number of cases, indices that differ)
 """
-import sys, random, os
+import os
+import sys
+
 _here = os.path.dirname(os.path.abspath(__file__))
-sys.path.insert(0, os.path.join(os.path.dirname(_here), "harness")); sys.path.insert(0, _here)
-import c19_findall as cf
-import problog.engine_builtin as ebm
+if _here not in sys.path:
+    sys.path.insert(0, _here)
+import c19_findall as cf  # noqa: E402
 
-N = int(sys.argv[1]) if len(sys.argv) > 1 else 200
-rng = random.Random(int(sys.argv[2]) if len(sys.argv) > 2 else 0)
-OUT = sys.argv[3] if len(sys.argv) > 3 else "/tmp/c19copy"
-os.makedirs(OUT, exist_ok=True)
+HEADER = """From Coq Require Import ZArith NArith List Bool Arith.
+From PL.C09 Require Import BoolGraph CyclesModel.
+From PL.C19 Require Import ModelSelectSublist ModelBranches ModelCopyNode.
+Import ListNotations.
+Fixpoint leqb {A} (e : A -> A -> bool) (x y : list A) : bool :=
+  match x, y with [], [] => true | u :: x', v :: y' => e u v && leqb e x' y' | _, _ => false end.
+Definition ai0 : atom_info := {| ai_group := []; ai_extra_id := [] |}.
+Definition chk (det : N -> bool) g t0 (results : list (Z * key)) expn (expo : list (list Z * key)) : bool :=
+  match findall_concrete det ai0 g (S (length g)) (S (length g)) {| t_nodes := t0; t_groups := [] |} results with
+  | Some (tF, out) => leqb node_eqb (t_nodes tF) expn && leqb (fun x y => leqb Z.eqb (fst x) (fst y) && key_eqb (snd x) (snd y)) out expo
+  | None => false
+  end.
+"""
 
 
-def capture_with_before(src):
-    befores = []
+def capture(src, timeout=30):
+    """c19_findall.capture with tlen_before / tlen_after / tflags added to every findall record.
+    The inner wrapper finishes right before the recorder of c19_findall appends its record, so the
+    i-th finished inner call belongs to the i-th findall record (nesting included)."""
+    import problog.engine_builtin as ebm
+    done = []
     orig = ebm._builtin_findall_base
 
-    def W(pattern, goal, result, **kw):
+    def inner(pattern, goal, result, **kw):
         tgt = kw.get("target")
-        idx = len(befores)
-        befores.append([len(tgt._nodes), tgt.keep_all, getattr(tgt, "_keep_duplicates", None), getattr(tgt, "_keep_order", None), None])
+        nb = len(tgt._nodes)
+        flags = (bool(tgt.keep_all), bool(getattr(tgt, "_keep_duplicates", False)))
         out = orig(pattern, goal, result, **kw)
-        befores[idx][4] = len(tgt._nodes)
+        done.append((nb, len(tgt._nodes), flags))
         return out
-    ebm._builtin_findall_base = W
+    ebm._builtin_findall_base = inner
     try:
-        st, err, calls = cf.capture(src, timeout=30)
+        st, err, calls = cf.capture(src, timeout=timeout)
     finally:
         ebm._builtin_findall_base = orig
-    return st, err, calls, befores
+    fcalls = [c for c in calls if c["kind"] == "findall"]
+    if len(fcalls) == len(done):
+        for c, (nb, na, flags) in zip(fcalls, done):
+            c["tlen_before"], c["tlen_after"], c["tflags"] = nb, na, flags
+    return st, err, calls
 
 
-def zl(l): return "[" + "; ".join("(%d)%%Z" % x for x in l) + "]"
-def key(k): return "None" if k is None else "(Some (%d)%%Z)" % k
+def _zl(l):
+    return "[" + "; ".join("(%d)%%Z" % x for x in l) + "]"
+
+
+def _key(k):
+    return "None" if k is None else "(Some (%d)%%Z)" % k
 
 
 def parse_terms(s):
     s = s.replace(" ", "")
-    assert s[0] == "[" and s[-1] == "]"
+    if not (s.startswith("[") and s.endswith("]")):
+        raise ValueError("not a list")
     inner = s[1:-1]
     if not inner:
         return []
@@ -57,98 +85,124 @@ def parse_terms(s):
         elif ch in ")]":
             depth -= 1
         if ch == "," and depth == 0:
-            out.append(cur); cur = ""
+            out.append(cur)
+            cur = ""
         else:
             cur += ch
     out.append(cur)
     return out
 
 
-cases, metas, stats = [], [], {}
-def count(k): stats[k] = stats.get(k, 0) + 1
+def coq_case(c, src):
+    """(term, None) or (None, reason-for-skipping)."""
+    if c.get("kind") != "findall":
+        return None, "not_findall"
+    if "tlen_before" not in c:
+        return None, "no_target_length_recorded"
+    if "results" not in c or "lst" not in c:
+        return None, "incomplete_record"
+    tgt, sg = c["target"], c["src"]
+    nb = c["tlen_before"]
+    if c["tlen_after"] != len(tgt) or nb > len(tgt):
+        return None, "target_dump_misaligned"
+    if c["tflags"][0] or c["tflags"][1]:
+        return None, "target_keep_all_or_keep_duplicates"
+    if ";" in src.split("query")[0]:
+        return None, "program_with_AD"
+    ids = {}
 
-for i in range(N):
-    r = rng.random()
-    src, kind = (cf.gen_relational_program(rng) if r < 0.3 else cf.gen_cyclic_program(rng) if r < 0.5 else cf.gen_rich_program(rng))
-    st, err, calls, befores = capture_with_before(src)
-    if st != "ok":
-        count("err"); continue
-    fcalls = [c for c in calls if c["kind"] == "findall"]
-    # nested calls finish in a different order than they start: only use programs where the counts match 1:1 and calls are not nested
-    if len(fcalls) != len(befores):
-        count("mismatch"); continue
-    # calls list is appended at the END of each call, befores at the START: same order iff no nesting
-    for c, (nb, ka, kd, ko, na) in zip(fcalls, befores):
-        if "results" not in c or "lst" not in c:
-            count("incomplete"); continue
-        tgt, sg = c["target"], c["src"]
-        if na != len(tgt):
-            count("nested_or_misaligned"); continue
-        if ka or kd:
-            count("target_keep_all_or_duplicates"); continue
-        ids = {}
-        def aid(name):
-            if name not in ids: ids[name] = len(ids)
-            return ids[name]
-        bad = False
-        def graph(nodes, dets=None):
-            out = []
-            for n in nodes:
-                if n[0] == "atom":
-                    if dets is not None and n[2] is True: dets.add(aid(n[1]))
-                    if n[2] is False: raise ValueError("false atom")
-                    out.append("NAtom %d%%N" % aid(n[1]))
-                else:
-                    if any(ch is None for ch in n[1]): raise ValueError("None child")
-                    out.append("%s %s" % ("NAnd" if n[0] == "conj" else "NOr", zl(n[1])))
-            return "[" + "; ".join(out) + "]"
-        try:
-            dets = set()
-            g = graph(sg, dets)
-            tF = graph(tgt)
-        except ValueError as e:
-            count("skip:" + str(e)); continue
-        if "::a0" in src or "a0;" in src or ";" in src.split("query")[0]:
-            count("skip_AD"); continue
+    def aid(name):
+        if name not in ids:
+            ids[name] = len(ids)
+        return ids[name]
+
+    def graph(nodes, dets=None):
+        out = []
+        for n in nodes:
+            if n[0] == "atom":
+                if n[2] is False:
+                    raise ValueError("atom_with_probability_False")
+                if dets is not None and n[2] is True:
+                    dets.add(aid(n[1]))
+                out.append("NAtom %d%%N" % aid(n[1]))
+            else:
+                if any(ch is None for ch in n[1]):
+                    raise ValueError("FALSE_child")
+                out.append("%s %s" % ("NAnd" if n[0] == "conj" else "NOr", _zl(n[1])))
+        return "[" + "; ".join(out) + "]"
+    try:
+        dets = set()
+        g = graph(sg, dets)
+        t_final = graph(tgt)
         t0 = graph(tgt[:nb])
-        try:
-            codes = {}
-            def code(t):
-                t = t.replace(" ", "")
-                if t not in codes: codes[t] = len(codes)
-                return codes[t]
-            results = "[" + "; ".join("((%d)%%Z, %s)" % (code(t), key(n)) for t, n in c["results"]) + "]"
-            out = "[" + "; ".join("(%s, %s)" % (zl([code(t) for t in parse_terms(l)]), key(n)) for l, n in c["out"]) + "]"
-        except AssertionError:
-            count("skip_parse"); continue
-        det = "(fun id => existsb (N.eqb id) [%s])" % "; ".join("%d%%N" % d for d in sorted(dets))
-        cases.append("chk %s %s %s %s %s %s" % (det, g, t0, results, tF, out))
-        metas.append((src, len(c["lst"]), nb, len(tgt), bool(dets), not cf.is_acyclic(sg)))
-        count("case")
-        if dets: count("case_with_det_atom")
-        if nb > 0: count("case_nonempty_t0")
-        if len(tgt) > nb: count("case_target_grows")
-        if not cf.is_acyclic(sg): count("case_cyclic_src")
-        if not cf.is_acyclic(tgt[:nb]): count("case_cyclic_t0")
+        codes = {}
 
-HEADER = """
-From Coq Require Import ZArith NArith List Bool Arith.
-From PL.C09 Require Import BoolGraph CyclesModel.
-From PL.C19 Require Import ModelSelectSublist ModelBranches ModelCopyNode.
-Import ListNotations.
-Fixpoint leqb {A} (e : A -> A -> bool) (x y : list A) : bool :=
-  match x, y with [], [] => true | u :: x', v :: y' => e u v && leqb e x' y' | _, _ => false end.
-Definition ai0 : atom_info := {| ai_group := []; ai_extra_id := [] |}.
-Definition chk det g t0 (results : list (Z * key)) expn (expo : list (list Z * key)) : bool :=
-  match findall_concrete det ai0 g (S (length g)) (S (length g)) {| t_nodes := t0; t_groups := [] |} results with
-  | Some (tF, out) => leqb node_eqb (t_nodes tF) expn && leqb (fun x y => leqb Z.eqb (fst x) (fst y) && key_eqb (snd x) (snd y)) out expo
-  | None => false
-  end.
-"""
-with open(os.path.join(OUT, "Cases.v"), "w") as f:
-    f.write(HEADER)
-    f.write("Definition cases : list bool := [\n" + ";\n".join(cases) + "].\n")
-    f.write("Eval vm_compute in (length cases, map fst (filter (fun p => negb (snd p)) (combine (seq 0 (length cases)) cases))).\n")
-import json
-json.dump(metas, open(os.path.join(OUT, "metas.json"), "w"))
-print(stats)
+        def code(t):
+            t = t.replace(" ", "")
+            if t not in codes:
+                codes[t] = len(codes)
+            return codes[t]
+        results = "[" + "; ".join("((%d)%%Z, %s)" % (code(t), _key(n)) for t, n in c["results"]) + "]"
+        out = "[" + "; ".join("(%s, %s)" % (_zl([code(t) for t in parse_terms(l)]), _key(n)) for l, n in c["out"]) + "]"
+    except ValueError as e:
+        return None, str(e)
+    det = "(fun id => existsb (N.eqb id) [%s])" % "; ".join("%d%%N" % d for d in sorted(dets))
+    return "chk %s %s %s %s %s %s" % (det, g, t0, results, t_final, out), None
+
+
+def features(c):
+    """histogram keys of a case"""
+    tgt, sg, nb = c["target"], c["src"], c["tlen_before"]
+    out = []
+    if any(n[0] == "atom" and n[2] is True for n in sg):
+        out.append("deterministic_atom")
+    if nb > 0:
+        out.append("nonempty_target_before")
+    if len(tgt) > nb:
+        out.append("target_grows")
+    if not cf.is_acyclic(sg):
+        out.append("cyclic_findall_target")
+    if not cf.is_acyclic(tgt[:nb]):
+        out.append("cyclic_target_before")
+    return out
+
+
+def main():
+    import random
+    sys.path.insert(0, os.path.join(os.path.dirname(_here), "harness"))
+    n = int(sys.argv[1]) if len(sys.argv) > 1 else 200
+    rng = random.Random(int(sys.argv[2]) if len(sys.argv) > 2 else 0)
+    outdir = sys.argv[3] if len(sys.argv) > 3 else "/tmp/c19copy"
+    os.makedirs(outdir, exist_ok=True)
+    cases, stats = [], {}
+
+    def count(k):
+        stats[k] = stats.get(k, 0) + 1
+    for _ in range(n):
+        r = rng.random()
+        src, _kind = (cf.gen_relational_program(rng) if r < 0.3 else cf.gen_cyclic_program(rng) if r < 0.5
+                      else cf.gen_rich_program(rng))
+        st, _err, calls = capture(src)
+        if st != "ok":
+            count("err")
+            continue
+        for c in calls:
+            if c["kind"] != "findall":
+                continue
+            term, why = coq_case(c, src)
+            if term is None:
+                count("skip:" + why)
+                continue
+            cases.append(term)
+            count("case")
+            for f in features(c):
+                count("case_" + f)
+    with open(os.path.join(outdir, "Cases.v"), "w") as f:
+        f.write(HEADER)
+        f.write("Definition cases : list bool := [\n" + ";\n".join(cases) + "].\n")
+        f.write("Eval vm_compute in (length cases, map fst (filter (fun p => negb (snd p)) (combine (seq 0 (length cases)) cases))).\n")
+    print(stats)
+
+
+if __name__ == "__main__":
+    main()
